@@ -68,7 +68,7 @@ MTYPE = {"uni": "uniswap", "squ": "uniswap", "aave": "aave", "squeeth": "squeeth
 
 
 def plan(tier, seed):
-    n = 36 if tier == "quick" else 260
+    n = 36 if tier == "quick" else 400
     return [{"shard": i, "cases": n} for i in range(NSHARDS)]
 
 
@@ -125,8 +125,11 @@ def frame_digest(df):
         "__dtypes__": sha(",".join(str(t) for t in df.dtypes.tolist())),
         "__shape__": f"{df.shape[0]}x{df.shape[1]}",
     }
-    for i, c in enumerate(df.columns.tolist()):
-        d[f"col:{c}"] = sha("|".join(canon(v) for v in df.iloc[:, i].tolist()))
+    cols = df.columns.tolist()
+    if len(cols):
+        rows = df.to_numpy(dtype=object).tolist()
+        for i, c in enumerate(cols):
+            d[f"col:{c}"] = sha("|".join(canon(r[i]) for r in rows))
     return d
 
 
@@ -159,9 +162,9 @@ def snap_flat(snap, minfos):
                 d[f"{nm}.{k}"] = canon(v)
         elif isinstance(data, pd.DataFrame):
             d[f"{nm}.__frame__"] = canon(data.index.tolist()) + "/" + ",".join(str(t) for t in data.dtypes.tolist())
-            rows = data.index.tolist()
-            for i, c in enumerate(data.columns.tolist()):
-                for r, v in zip(rows, data.iloc[:, i].tolist()):
+            cols = data.columns.tolist()
+            for r, vals in zip(data.index.tolist(), data.to_numpy(dtype=object).tolist()):
+                for c, v in zip(cols, vals):
                     d[f"{nm}.{c}@{r}"] = canon(v)
         else:
             d[f"{nm}.__other__"] = canon(data)
@@ -808,21 +811,24 @@ def _blame(exc):
 def execute(inp):
     """one backtest through the real Actuator on the supplied frames; fresh Actuator, broker and markets"""
     spec = inp.spec
-    drivers = inp.make_markets()
-    rec = Recorder(drivers, spec)
-    strat = Dr.make_script_strategy(observer=rec)
-    act = Dr.build_actuator([d.m for d in drivers], inp.prices, None, inp.assets, strat, spec.interval)
-    for d in drivers:
-        if d.mtype == "deribit":
-            d.m.deposit(Decimal(50000))
     r = Result()
-    # the frames the run starts from, as objects
-    held = {"actuator.token_prices": act._token_prices}
-    for d in drivers:
-        held[f"{d.kind}.market.data"] = d.m.data
-    pre = {k: frame_digest(v) for k, v in held.items()}
     r.error = None
+    r.bars, r.accepted, r.mtypes, r.rows, r.actions, r.n_bars, r.notified = {}, 0, {}, {}, [], 0, 0
+    held, pre, act, rec = {}, {}, None, None
     try:
+        drivers = inp.make_markets()
+        r.mtypes = {d.kind: d.mtype for d in drivers}
+        rec = Recorder(drivers, spec)
+        strat = Dr.make_script_strategy(observer=rec)
+        act = Dr.build_actuator([d.m for d in drivers], inp.prices, None, inp.assets, strat, spec.interval)
+        for d in drivers:
+            if d.mtype == "deribit":
+                d.m.deposit(Decimal(50000))
+        # the frames the run starts from, as objects
+        held["actuator.token_prices"] = act._token_prices
+        for d in drivers:
+            held[f"{d.kind}.market.data"] = d.m.data
+        pre = {k: frame_digest(v) for k, v in held.items()}
         act.run(False)
     except Exception as e:  # noqa
         if _blame(e) == "harness":
@@ -831,9 +837,10 @@ def execute(inp):
     r.post_internal = {k: frame_digest(v) for k, v in held.items()}
     r.pre_internal = pre
     r.after = {k: frame_digest(v) for k, v in inp.frames.items()}
+    if rec is None or act is None:
+        return r
     r.bars = rec.bars
     r.accepted = rec.accepted
-    r.mtypes = {d.kind: d.mtype for d in drivers}
     df = act._account_status_df if r.error is None else None
     r.rows = {}
     if df is not None and len(df.index):
@@ -850,90 +857,90 @@ def execute(inp):
 
 
 # ------------------------------------------------------------------------------------------------ comparisons
+FRAME_MARKET = {"uni": "uniswap", "squ": "uniswap", "sq": "squeeth", "squeeth": "squeeth", "book": "deribit", "deribit": "deribit",
+                "aave": "aave", "gmx": "gmx", "gmx2": "gmx2"}
+
+
 def gen_field(key):
-    """strip instance parts (instrument, position) of a digest key: the mechanism, not the value"""
-    return key.split("@")[0]
+    """strip instance parts (instrument, position, token) of a digest key: the mechanism, not the value"""
+    key = key.split("@")[0]
+    if key.startswith("("):  # aave column ('WETH', 'liquidity_index')
+        key = key.strip("()").split(",")[-1].strip().strip("'")
+    return key
 
 
 def site_of(kind_map, key):
-    head = key.split(".")[0]
-    if head in kind_map:
-        return kind_map[head] + "." + gen_field(key.split(".", 1)[1])
-    return gen_field(key)
+    """(market, site) of a snapshot field / account column"""
+    head, _, rest = key.partition(".")
+    if head in kind_map and rest:
+        return kind_map[head], kind_map[head] + "." + gen_field(rest)
+    if head == "prices":
+        return "actuator", "prices"
+    if head == "price":
+        return "actuator", "account-price-column"
+    if head == "tokens":
+        return "account", "wallet"
+    return "account" if head == "net_value" else "actuator", gen_field(key)
 
 
 def compare_runs(mon, spec, ra, rb, bars, upto, operation, info):
-    """exact comparison of two runs on `bars` (list of bar timestamps) and of the actions with timestamp <= upto.
-    Returns the number of violations found (first difference per kind is reported)."""
+    """exact comparison of two runs on `bars` (bar timestamps, ascending) and of the actions with timestamp <= upto.
+    Only the earliest difference is reported (later ones are its consequences: the script reacts to what it sees).
+    Returns 1 if a difference was found."""
     ivc = "1min" if spec.interval == "1min" else "resampled"
     opn = f"{operation}/{ivc}"
-    found = 0
-    done = set()
 
     def report(mkt, clause, site, detail):
-        nonlocal found
-        if clause in done:
-            return
-        done.add(clause)
-        found += 1
         mon.violation(mkt, opn, clause, site, f"[{spec.mix} {spec.interval}] {detail}", info)
+        return 1
 
     for ts in bars:
         ba, bb = ra.bars.get(ts), rb.bars.get(ts)
         if ba is None or bb is None:
             mon.ev()
-            report("actuator", "bar-missing", "strategy-hooks", f"bar {ts}: hooks called in one run only ({ba is not None}/{bb is not None})")
-            continue
+            return report("actuator", "bar-missing", "strategy-hooks", f"bar {ts}: hooks called in one run only ({ba is not None}/{bb is not None})")
         for ph in PHASES3:
             mon.ev()
             fa, fb = ba[ph], bb[ph]
             if fa is None or fb is None:
                 if (fa is None) != (fb is None):
-                    report("actuator", "snapshot-differs", f"{ph}:not-called", f"bar {ts}: {ph} called in one run only")
+                    return report("actuator", "snapshot-differs", f"{ph}:not-called", f"bar {ts}: {ph} called in one run only")
                 continue
             if fa != fb:
                 k, va, vb = first_diff(fa, fb)
-                st = site_of(ra.mtypes, k)
-                report(st.split(".")[0] if "." in st else "actuator", "snapshot-differs", f"{ph}:{st}",
-                       f"bar {ts} {ph}: snapshot field {k}: {va[:120]} vs {vb[:120]}")
+                mk, st = site_of(ra.mtypes, k)
+                if "@" in k or k.endswith("__frame__"):
+                    st = f"{mk}.book"  # a cell / the row set of the order-book frame
+                return report(mk, "snapshot-differs", f"{ph}:{st}", f"bar {ts} {ph}: snapshot field {k}: {va[:120]} vs {vb[:120]}")
         if ba["calls"] != bb["calls"]:
-            report("actuator", "snapshot-differs", "hook-order", f"bar {ts}: hooks {ba['calls']} vs {bb['calls']}")
+            return report("actuator", "snapshot-differs", "hook-order", f"bar {ts}: hooks {ba['calls']} vs {bb['calls']}")
         mon.ev()
         wa, wb = ra.rows.get(ts), rb.rows.get(ts)
         if wa is None or wb is None:
-            if (wa is None) != (wb is None) or ra.error is None and rb.error is None:
-                report("actuator", "account-row-differs", "row-missing", f"bar {ts}: account row present {wa is not None}/{wb is not None}")
-            continue
+            return report("actuator", "account-row-differs", "row-missing", f"bar {ts}: account row present {wa is not None}/{wb is not None}")
         if wa != wb:
             k, va, vb = first_diff(wa, wb)
-            st = site_of(ra.mtypes, k)
-            ops_a = [o for o in ba["ops"]]
-            ops_b = [o for o in bb["ops"]]
-            od = next((f"first differing operation: {x} vs {y}" for x, y in zip(ops_a, ops_b) if x != y), "same operation log")
-            report(st.split(".")[0] if "." in st and st.split(".")[0] in MTYPE.values() else "account", "account-row-differs", st,
-                   f"bar {ts}: account column {k}: {va[:100]} vs {vb[:100]}; {od}")
+            mk, st = site_of(ra.mtypes, k)
+            od = next((f"first differing operation: {x} vs {y}" for x, y in zip(ba["ops"], bb["ops"]) if x != y), "same operation log")
+            return report(mk, "account-row-differs", st, f"bar {ts}: account column {k}: {va[:100]} vs {vb[:100]}; {od}")
     # actions
     mon.ev()
     aa = [a for a in ra.actions if a[0] is not None and a[0] <= upto]
     ab = [a for a in rb.actions if a[0] is not None and a[0] <= upto]
     if aa != ab:
-        what, site = f"{len(aa)} vs {len(ab)} actions", "count"
+        what, site, mk = f"{len(aa)} vs {len(ab)} actions", "count", "actuator"
         for x, y in zip(aa, ab):
             if x != y:
+                mtxt = x[2].get("market", "")
+                mk = next((v for k2, v in ra.mtypes.items() if f"name=str:'{k2}'" in mtxt), "actuator")
                 if x[0] != y[0] or x[1] != y[1]:
                     what, site = f"{x[0]} {x[1]} vs {y[0]} {y[1]}", "sequence"
                 else:
                     fd = first_diff(x[2], y[2])
                     what, site = f"{x[0]} {x[1]}.{fd[0]}: {fd[1][:100]} vs {fd[2][:100]}", f"{x[1]}.{fd[0]}"
                 break
-        mk = "actuator"
-        for x, y in zip(aa, ab):
-            if x != y:
-                mk = x[2].get("market", "actuator")
-                mk = next((v for k2, v in ra.mtypes.items() if f"name=str:'{k2}'" in mk), "actuator")
-                break
-        report(mk, "actions-differ", site, f"recorded actions up to {upto}: {what}")
-    return found
+        return report(mk, "actions-differ", site, f"recorded actions up to {upto}: {what}")
+    return 0
 
 
 def check_frames(mon, spec, inp, r, info, which):
@@ -944,7 +951,7 @@ def check_frames(mon, spec, inp, r, info, which):
         if after != before:
             k, va, vb = first_diff(before, after)
             head = label.split(".")[0].split(":")[0]
-            mk = MTYPE.get(head, "actuator")
+            mk = FRAME_MARKET.get(head, "actuator")
             mon.violation(mk, f"run/{'1min' if spec.interval == '1min' else 'resampled'}", "input-frame-changed",
                           f"{label.split(':')[0]}:{gen_field(k)}",
                           f"[{spec.mix} {spec.interval}] supplied frame {label} changed across {which}: {k}: {va} -> {vb}", info)
@@ -954,7 +961,7 @@ def check_frames(mon, spec, inp, r, info, which):
         if after != before:
             k, va, vb = first_diff(before, after)
             head = label.split(".")[0]
-            mon.violation(MTYPE.get(head, "actuator"), f"run/{'1min' if spec.interval == '1min' else 'resampled'}", "input-frame-changed",
+            mon.violation(FRAME_MARKET.get(head, "actuator"), f"run/{'1min' if spec.interval == '1min' else 'resampled'}", "input-frame-changed",
                           f"{label}:{gen_field(k)}",
                           f"[{spec.mix} {spec.interval}] frame {label} (object held when run() was entered) changed across {which}: {k}: {va} -> {vb}", info)
 
@@ -991,7 +998,14 @@ def one_case(mon, rng, c, mix, interval):
     rng_a, rng_b = random.Random(rng.getrandbits(64)), random.Random(rng.getrandbits(64))
     raw_a = spec.gen_raw(rng_a, spec.n)
     raw_b = spec.gen_raw(rng_b, spec.n + extra)
-    inp = Inputs(spec, raw_a)
+    try:
+        inp = Inputs(spec, raw_a)
+    except Exception as e:  # demeter's preparation code raised on the generated history
+        if _blame(e) == "harness":
+            raise
+        mon.violation(market_of_site(Dr.reject_site(e)), "prepare", "raises", f"{type(e).__name__}@{Dr.reject_site(e)}",
+                      f"[{mix} {interval}] preparing H raised {e!r}\n{traceback.format_exc()[-1000:]}", info)
+        return
     r1 = execute(inp)
     mon.hit(f"runs/{mix}")
     mon.hit(f"interval/{interval}")
@@ -1016,7 +1030,8 @@ def one_case(mon, rng, c, mix, interval):
     else:
         bars_all = sorted(set(r1.bars) | set(r2.bars))
         last = max(bars_all) if bars_all else spec.start
-        compare_runs(mon, spec, r1, r2, bars_all, last + timedelta(days=3), "rerun-same-inputs", info)
+        v2 = compare_runs(mon, spec, r1, r2, bars_all, last + timedelta(days=3), "rerun-same-inputs", info)
+        mon.cls(f"rerun/{'identical' if v2 == 0 else 'DIFFERS'}/{mix}")
         mon.hit("rerun-bars", len(bars_all))
         mon.hit(f"rerun/{mix}")
         if r1.n_bars != r2.n_bars:
@@ -1084,6 +1099,7 @@ def one_case(mon, rng, c, mix, interval):
             mon.cls("pair/no-shared-bar")
             continue
         v = compare_runs(mon, spec, r1, rp, shared, shared[-1], "prefix-vs-regenerated-future", info2)
+        mon.cls(f"prefix/{'identical' if v == 0 else 'DIFFERS'}/{mix}/{interval}")
         mon.hit("shared-bars", len(shared))
         mon.hit(f"shared-bars/{mix}", len(shared))
         heldk = r1.bars.get(shared[-1], {}).get("held", ())
@@ -1099,11 +1115,14 @@ def one_case(mon, rng, c, mix, interval):
             mon.nt(f"{mix}/{interval}/{kclass}/{fclass}/{spec.script}/{'+'.join(heldk)}")
             if "squeeth" in heldk:
                 mon.hit("pairs/squeeth-vault-open-at-k")
-            mon.sample({"mix": mix, "interval": interval, "script": spec.script, "raw_rows": spec.n, "cut": str(t_cut), "cut_class": kclass,
-                        "future": fclass, "bars_in_H": len(bars), "bars_in_H'": rp.n_bars, "shared_bars_compared": len(shared),
-                        "holdings_at_k": list(heldk), "actions_in_prefix": len([a for a in r1.actions if a[0] <= shared[-1]]),
-                        "ops_in_prefix": sum(len(r1.bars[ts]["ops"]) for ts in shared), "identical": v == 0},
-                       cls=f"{mix}/{interval}")
+            if c % 5 == mon.shard.get("shard", 0) % 5 and not mon.samples:  # one per shard: a different (mix, interval) each
+                mon.sample({
+                    "mix": mix, "interval": interval, "script": spec.script, "raw_rows": spec.n, "cut": str(t_cut),
+                    "cut_class": kclass, "future": fclass, "bars_in_H": len(bars), "bars_in_H'": rp.n_bars,
+                    "shared_bars_compared": len(shared), "holdings_at_k": list(heldk),
+                    "actions_in_prefix": len([a for a in r1.actions if a[0] <= shared[-1]]),
+                    "ops_in_prefix": sum(len(r1.bars[ts]["ops"]) for ts in shared), "identical": v == 0,
+                })
         else:
             mon.cls("pair/no-position-at-k")
 
@@ -1184,14 +1203,15 @@ def floors(merged, tier):
     out = []
     r = merged["reach"]
     k = 1 if tier == "quick" else 10
-    need = {"pairs": 60 * k, "pairs/future-differs": 50 * k, "pairs/position-open-at-k": 25 * k, "shared-bars": 300 * k,
-            "rerun-bars": 400 * k, "operations-accepted": 400 * k, "actions": 300 * k,
-            "deribit-non-hour-bars-compared": 30 * k, "pairs/squeeth-vault-open-at-k": 2 * k}
+    need = {"pairs": 150 * k, "pairs/future-differs": 150 * k, "pairs/position-open-at-k": 150 * k, "shared-bars": 1000 * k,
+            "rerun-bars": 800 * k, "operations-accepted": 1300 * k, "actions": 1500 * k,
+            "deribit-non-hour-bars-compared": 250 * k, "pairs/squeeth-vault-open-at-k": 15 * k}
     for mix in MIXES:
-        need[f"pairs/{mix}"] = 3 * k
-        need[f"rerun/{mix}"] = 2 * k
+        need[f"pairs/{mix}"] = 15 * k
+        need[f"pairs/position-open-at-k/{mix}"] = 10 * k
+        need[f"rerun/{mix}"] = 5 * k
     for iv in IV_MIN:
-        need[f"pairs/{iv}"] = 6 * k
+        need[f"pairs/{iv}"] = 40 * k
     for name, n in need.items():
         if r.get(name, 0) < n:
             out.append(f"{name} reached {r.get(name, 0)} times, floor {n}")
